@@ -23,6 +23,7 @@ func checkC09(r *Run) {
 	ruleDurationArithmetic(r, p, "DUR") // durations: integer quotient / float quotient, never rounded through the other domain
 	ruleFloatWidth(r, p)                // floats: head byte, width and the three non-finite bit patterns
 	ruleA6(r, p, []string{cborRel})
+	ruleFrontEndConversions(r, p, "A6")
 	if r.Tier == "thorough" {
 		if p32 := r.Use("B32"); p32 != nil {
 			ruleA6(r, p32, []string{cborRel})
